@@ -258,6 +258,34 @@ def check_input_flow(rep):
                          % (u.detail or u.kind, (' (reached through ' + where + ')') if where else ''))
 
 
+def check_module_maps(rep):
+    """TAB.module-map: a module that translates further characters in its own compact() (the Arabic digits of eg.tn) keeps them in a
+    module-level dict of single characters; wherever such a table produces an ASCII digit from a character that has a Unicode decimal
+    value, that value must be the digit."""
+    from ..strabs.model import Program
+    from ..common import rel
+    prog = Program()
+    n = 0
+    for mn in sorted(prog.mods):
+        m = prog.mods[mn]
+        if mn == 'stdnum.util':
+            continue
+        for name, table in sorted(m.consts.items()):
+            if not (isinstance(table, dict) and table and all(isinstance(k, str) and len(k) == 1 and isinstance(v, str) for k, v in table.items())):
+                continue
+            node = m.assign_nodes.get(name)
+            line = getattr(node, 'lineno', 0)
+            for k, v in sorted(table.items()):
+                dv = unicodedata.decimal(k, None)
+                if ord(k) < 128 or not (len(v) == 1 and v in '0123456789'):
+                    continue
+                n += 1
+                rep.check(dv is not None and dv == int(v), 'TAB.module-map', rel(m.path), name, 'U+%04X %s -> %r' % (ord(k), unicodedata.name(k, '?'), v), line,
+                          '%s[U+%04X %s] is %r, the Unicode decimal value of that character is %r: a number typed with these digits is read as another number'
+                          % (name, ord(k), unicodedata.name(k, '?'), v, dv), what='%s.%s U+%04X -> %s' % (mn, name, ord(k), v))
+    return n
+
+
 def check(tier):
     rep = Report('C14', tier, level='proof',
                  rule_text='every entry of the look-alike table literal in stdnum/util.py is checked against the Unicode '
@@ -270,6 +298,8 @@ def check(tier):
                  assumptions=['no monkey-patching of stdnum.util._char_map at run time (C13 checks the writers of module state)'])
     entries, mapname, funcs, assigns = derive_table()
     rep.unit('table entries', len(entries))
+    if check_module_maps(rep) < 10:
+        rep.error('TAB.module-map found fewer than 10 digit entries in module-level character tables (eg.tn confirmed on the reference tree)')
     m = {}
     first_line = {}
     for nm, tgt, line in entries:
